@@ -24,7 +24,7 @@ def jobs(ctx):
         for a in VARIANTS[3:]:
             for b in VARIANTS[3:8]:
                 d(lvar=a, rvar=b)
-    for mode in ('int', 'grid', 'grids', 'int-right-int', 'int-right-grid', 'grid-count'):
+    for mode in ('int', 'grid', 'grids', 'int-right-int', 'int-right-grid', 'grid-count', 'grid-u8'):
         i(mode=mode)
     for aux in ('mask', 'classif', 'segm'):
         i(mode='int', aux=aux)
